@@ -14,7 +14,7 @@ package main
 // ALONE, then all N run concurrently (2N goroutines) at GOMAXPROCS in {1,2,16}; every
 // concurrent transcript must equal the solo transcript, and the race detector must stay silent
 // (its reports are counted through GORACE=log_path; the process re-executes itself once to set
-// that up).
+// that up; the parent waits and removes the log directory).
 //
 // Lines:
 //   C19 n procs mixseed race -> ok mismatches races status first
@@ -29,12 +29,12 @@ import (
 	"math/rand"
 	"net/url"
 	"os"
+	"os/exec"
 	"path/filepath"
 	"runtime"
 	"strconv"
 	"strings"
 	"sync"
-	"syscall"
 	"time"
 
 	"github.com/gobwas/httphead"
@@ -76,9 +76,22 @@ func c19Reexec() {
 	if err != nil {
 		return
 	}
-	env := append(os.Environ(), "C19_RACE_DIR="+d, "GORACE=log_path="+filepath.Join(d, "r")+" halt_on_error=0 exitcode=0")
-	exe, _ := os.Executable()
-	syscall.Exec(exe, os.Args, env)
+	// run ourselves once more with the race log directed to d; stay around to remove d
+	cmd := exec.Command(os.Args[0], os.Args[1:]...)
+	if exe, err := os.Executable(); err == nil {
+		cmd.Path = exe
+	}
+	cmd.Env = append(os.Environ(), "C19_RACE_DIR="+d, "GORACE=log_path="+filepath.Join(d, "r")+" halt_on_error=0 exitcode=0")
+	cmd.Stdin, cmd.Stdout, cmd.Stderr = os.Stdin, os.Stdout, os.Stderr
+	err = cmd.Run()
+	os.RemoveAll(d)
+	if err != nil {
+		if ee, ok := err.(*exec.ExitError); ok {
+			os.Exit(ee.ExitCode())
+		}
+		os.Exit(2)
+	}
+	os.Exit(0)
 }
 
 func c19Races() int {
@@ -437,8 +450,13 @@ func c19Run(s c19Script, received *[][]byte) string {
 	var tc, ts transcript
 	var wg sync.WaitGroup
 	wg.Add(2)
-	go func() { defer wg.Done(); defer sv.w.close(); c19Server(s, sv, &ts, received) }()
-	go func() { defer wg.Done(); defer cl.w.close(); c19Client(s, cl, &tc) }()
+	guard := func(t *transcript, who string) {
+		if r := recover(); r != nil {
+			t.add("%s:PANIC:%v", who, r)
+		}
+	}
+	go func() { defer wg.Done(); defer sv.w.close(); defer guard(&ts, "s"); c19Server(s, sv, &ts, received) }()
+	go func() { defer wg.Done(); defer cl.w.close(); defer guard(&tc, "c"); c19Client(s, cl, &tc) }()
 	done := make(chan struct{})
 	go func() { wg.Wait(); close(done) }()
 	select {
@@ -478,7 +496,7 @@ func c19Scenario(c *ctx, n, procs int, mixSeed int64) {
 	wg.Wait()
 	mism, first := 0, "-"
 	for i := range scripts {
-		if conc[i] != solo[i] || strings.Contains(solo[i], "error") || strings.Contains(solo[i], "WRONG") || strings.Contains(solo[i], "TIMEOUT") {
+		if conc[i] != solo[i] || strings.Contains(solo[i], "error") || strings.Contains(solo[i], "WRONG") || strings.Contains(solo[i], "TIMEOUT") || strings.Contains(solo[i], "PANIC") {
 			mism++
 			if first == "-" {
 				first = fmt.Sprintf("session%d/seed%d", i, scripts[i].seed)
@@ -521,9 +539,6 @@ func c19Control(c *ctx) {
 
 func runC19(c *ctx) {
 	c19Reexec()
-	if c19RaceDir != "" {
-		defer os.RemoveAll(c19RaceDir)
-	}
 	c19Control(c)
 	type sc struct{ n, procs int }
 	mix := []sc{{8, 1}, {8, 2}, {16, 16}, {32, 2}, {64, 16}, {16, 1}}
